@@ -141,3 +141,4 @@ run cos-rename-local cosmetic "" map_elements_hashkey.go '/^func \(e \*hkeyEleme
 run cos-flip-cmp cosmetic "" map_elements_hashkey.go '/^func \(e \*hkeyElements\) Set\(/,/^}/s/^\tif hkey < e\.hkeys\[0\] \{$/\tif e.hkeys[0] > hkey {/'
 run cos-rename-recv cosmetic "" map_data_slab.go '/^func \(m \*MapDataSlab\) Remove\(/,/^}/{s/\bm\./md./g;s/\(m \*MapDataSlab\)/(md *MapDataSlab)/;s/storeSlab\(storage, m\)/storeSlab(storage, md)/}'
 run cos-extra-local cosmetic "" map_element.go '/^func \(e \*singleElement\) Get\(/,/^}/s/^\tif equal \{$/\tfound := equal\n\tif found {/'
+rm -rf "$MUT" "$LEAN" "$(dirname "$BIN")"
